@@ -417,21 +417,26 @@ theorem orderedUpTo_mono {hi hi' : Nat} (hh : hi ≤ hi') : ∀ (l : List Place)
   | nil => intro lo h; simp [orderedUpTo] at h ⊢; omega
   | cons q qs ih => intro lo h; simp [orderedUpTo] at h ⊢; exact ⟨h.1, ih _ h.2⟩
 
-theorem sysvFold_ordered : ∀ (ms : Mems) (s : SSt), ms.noBf = true →
+/-- the specification places the members of any struct (bit-fields included) in increasing,
+pairwise disjoint positions -/
+theorem sysvFold_ordered : ∀ (ms : Mems) (s : SSt),
     orderedUpTo 0 s.out s.bitpos = true →
     orderedUpTo 0 (sysvFold false ms s).out (sysvFold false ms s).bitpos = true
-  | .nil, s, _, h => by simpa [sysvFold] using h
-  | .cons k t r, s, hn, h => by
-    have hk : ∀ w nm, k ≠ .bf w nm := by
-      intro w nm hh; subst hh; simp [Mems.noBf] at hn
-    have hn' : r.noBf = true := by
-      cases k <;> simp_all [Mems.noBf]
+  | .nil, s, h => by simpa [sysvFold] using h
+  | .cons k t r, s, h => by
     have hal := sysvLay_align_pos t
     simp only [sysvFold]
-    apply sysvFold_ordered r _ hn'
+    apply sysvFold_ordered r _
     have hge := roundUp_ge (x := (s.bitpos + 7) / 8) hal
+    have hge2 := roundUp_ge (x := s.bitpos) (show 0 < 8 * (sysvLay t).align by omega)
     cases k with
-    | bf w nm => exact absurd rfl (hk w nm)
+    | bf w nm =>
+      simp only [sysvMember, if_false, Bool.false_eq_true]
+      split
+      · exact orderedUpTo_append (by simp; omega) (by simp) _ _ h
+      · split
+        · exact orderedUpTo_append (by simp; omega) (by simp) _ _ h
+        · exact orderedUpTo_append (by simp) (by simp) _ _ h
     | plain =>
       simp only [sysvMember, if_false, Bool.false_eq_true]
       exact orderedUpTo_append (by simp; omega) (by simp; omega) _ _ h
@@ -439,10 +444,10 @@ theorem sysvFold_ordered : ∀ (ms : Mems) (s : SSt), ms.noBf = true →
       simp only [sysvMember, if_false, Bool.false_eq_true]
       exact orderedUpTo_append (by simp; omega) (by simp; omega) _ _ h
 
-/-- struct without bit-fields: members in declaration order, pairwise disjoint, inside the object -/
-theorem sysvLay_struct_ordered (ms : Mems) (hn : ms.noBf = true) :
+/-- psABI struct: members in declaration order, pairwise disjoint, inside the object -/
+theorem sysvLay_struct_ordered (ms : Mems) :
     orderedUpTo 0 (sysvLay (.agg false ms)).mems (8 * (sysvLay (.agg false ms)).size) = true := by
-  have h := sysvFold_ordered ms {} hn (by simp [orderedUpTo])
+  have h := sysvFold_ordered ms {} (by simp [orderedUpTo])
   simp only [sysvLay]
   apply orderedUpTo_mono _ _ _ h
   have := roundUp_ge (x := ((sysvFold false ms {}).bitpos + 7) / 8) (le_sysvAlignFold ms 1)
